@@ -267,7 +267,7 @@ func dblc2(rng *rand.Rand, G float64, U int64) [][]ipt {
 		return nil
 	}
 	e := U / 8
-	span, wall := 48*e, 16*e
+	span, wall := 64*e, 24*e // walls of three pixels: the middle of a moat is farther than a pixel from its sides
 	y0 := (12 + 8*rng.Int63n(2)) * e
 	y1 := y0 + span
 	var rings [][]ipt
@@ -285,7 +285,7 @@ func dblc2(rng *rand.Rand, G float64, U int64) [][]ipt {
 		thin := []ipt{{xb, y1 + d1}, {xb, y1 + d2}, {x1 + d2, y1 + d2}, {x1 + d2, y0 - d2}, {x0 - d2, y0 - d2}, {x0 - d2, y1 + d2}, {xa, y1 + d2}, {xa, y1 + d1},
 			{x0 - d1, y1 + d1}, {x0 - d1, y0 - d1}, {x1 + d1, y0 - d1}, {x1 + d1, y1 + d1}}
 		rings = append(rings, thick, thin)
-		x0 = x1 + 24*e
+		x0 = x1 + 16*e
 	}
 	if x0+8*e >= int64(G)*U || y1+24*e >= int64(G)*U {
 		return nil
@@ -312,6 +312,43 @@ func manyholes(rng *rand.Rand, G float64, U int64) [][]ipt {
 	for _, x0 := range []int64{U, 6 * U, 11 * U} {
 		x, y := x0+dx, 14*U+dy
 		rings = append(rings, []ipt{{x, y}, {x + U + 1, y + U + 1}, {x, y + 3*U - 1}, {x + 3*U - 1, y + 3*U - 1}, {x + U + 3, y + U + 1}, {x + 3*U - 1, y}})
+	}
+	return rings
+}
+
+// notchhole: a notch cut into the shell from the right (or, mirrored, from the left, the top, the bottom) and a triangular hole whose nearest
+// vertex is a fraction of a pixel away from the notch's tip: snapped, the hole touches the shell at a reflex corner of it
+func notchhole(rng *rand.Rand, G float64, U int64) [][]ipt {
+	if U < 4 || G < 14 {
+		return nil
+	}
+	a, b := U+rng.Int63n(U), U+rng.Int63n(U)
+	c, d := a+(9+rng.Int63n(3))*U, b+(9+rng.Int63n(3))*U
+	t, m := c-3*U-rng.Int63n(U), (b+d)/2+rng.Int63n(U)
+	sh := []ipt{{a, b}, {c, b}, {c, m - 2*U}, {t, m}, {c, m + 2*U}, {c, d}, {a, d}}
+	gap := 1 + rng.Int63n(U/2)
+	hole := []ipt{{t - gap, m}, {t - gap - 2*U, m - U}, {t - gap - 2*U, m + U}}
+	rings := [][]ipt{sh, hole}
+	lim := int64(13) * U
+	switch rng.Intn(4) {
+	case 1: // from the left
+		for _, r := range rings {
+			for i := range r {
+				r[i] = ipt{lim + 2*U - r[i].x, r[i].y}
+			}
+		}
+	case 2: // from the top
+		for _, r := range rings {
+			for i := range r {
+				r[i] = ipt{r[i].y, r[i].x}
+			}
+		}
+	case 3: // from the bottom
+		for _, r := range rings {
+			for i := range r {
+				r[i] = ipt{r[i].y, lim + 2*U - r[i].x}
+			}
+		}
 	}
 	return rings
 }
@@ -471,9 +508,11 @@ func genValid(rng *rand.Rand, family string, G float64, U int64, maxv int) (res 
 	var shell []ipt
 	cx, cy, rmax := 0.0, 0.0, 0.0
 	switch family {
-	case "chole", "edgehole", "dblc", "pinhole":
+	case "chole", "edgehole", "dblc", "pinhole", "notchhole":
 		var rings [][]ipt
 		switch family {
+		case "notchhole":
+			rings = notchhole(rng, G, U)
 		case "pinhole":
 			rings = pinhole(rng, G, U)
 		case "chole":
@@ -788,7 +827,7 @@ func pickWindow(rng *rand.Rand, ws []window) window {
 	return ws[0]
 }
 
-var validFamilies = []string{"star", "star", "holes", "holes", "comb", "sliver", "pinched", "rect", "chole", "edgehole", "dblc", "tiny", "thinpath", "pinhole"}
+var validFamilies = []string{"star", "star", "holes", "holes", "comb", "sliver", "pinched", "rect", "chole", "edgehole", "dblc", "tiny", "thinpath", "pinhole", "notchhole"}
 
 // genCase: one snapping case. valid=true: a valid polygon; otherwise arbitrary vertex sequences.
 func genCase(rng *rand.Rand, w window, valid bool, maxv int) *snapCase {
